@@ -1505,10 +1505,12 @@ class Engine:
                     s3.trace = s3.trace + ('c%d:%s' % (line, lab),)
                     yield s3, res
             return
-        if c.ret is None:
+        ret = c.ret({n: v.ty for n, v in penv.items() if isinstance(v, V)}) \
+            if callable(c.ret) else c.ret
+        if ret is None:
             res = VNONE
         else:
-            res = self.fresh(c.ret, 'ret_' + full.split('.')[-1], s2)
+            res = self.fresh(ret, 'ret_' + full.split('.')[-1], s2)
         s2 = self.add_all(s2, [self.spec_bool(cl.src, s2, penv, result=res, pre=pre)
                                for cl in c.ensures_])
         if s2 is not None:
@@ -2270,12 +2272,15 @@ class Engine:
             lab, guard, res = match
             self.oblige(st, 'post', 'result-case:' + lab,
                         self.spec_bool(guard, pre, penv, goal=True), props=c.props, line=line)
-        elif c.ret is not None and c.ret.kind not in ('rec',) and res.ty != c.ret:
-            try:
-                res = self.coerce(res, c.ret)
-            except EngineError:
-                if res.ty.kind == 'none' and c.ret.kind == 'any':
-                    res = V(ANY, PV.pnone)
+        elif c.ret is not None and (callable(c.ret) or c.ret.kind not in ('rec',)):
+            ret = c.ret({n: v.ty for n, v in penv.items() if isinstance(v, V)}) \
+                if callable(c.ret) else c.ret
+            if res.ty != ret:
+                try:
+                    res = self.coerce(res, ret)
+                except EngineError:
+                    if res.ty.kind == 'none' and ret.kind == 'any':
+                        res = V(ANY, PV.pnone)
         for cl in c.ensures_:
             hints = [self.spec_bool(h, st, penv, result=res, pre=pre) for h in cl.hints]
             g = self.spec_bool(cl.src, st, penv, result=res, pre=pre, goal=True)
